@@ -35,6 +35,14 @@ def _norm(e: ast.AST, var: str) -> str:
 
 
 def _mid_fields(js: ast.AST):
+    if isinstance(js, ast.Tuple):
+        # a tuple key: same fields, written in the notation of the string form
+        out = []
+        for i, v in enumerate(js.elts):
+            if i:
+                out.append(":")
+            out.append(ast.unparse(v).split(".")[-1])
+        return out
     if not isinstance(js, ast.JoinedStr):
         return None
     out = []
@@ -316,7 +324,8 @@ def run(ctx: Ctx):
         mdef = [n for n in g.nodes if n.kind == "stmt" and any(
             isinstance(t, ast.Name) and t.id == mid_var for t in n.stores())]
         rdef = [n for n in gr.nodes if n.kind == "stmt" and isinstance(n.ast, ast.Assign)
-                and isinstance(n.ast.value, ast.JoinedStr)]
+                and (isinstance(n.ast.value, ast.JoinedStr)
+                     or (isinstance(n.ast.value, ast.Tuple) and len(n.ast.value.elts) == 3))]
         m1 = _mid_fields(mdef[0].ast.value) if mdef else None
         m2 = _mid_fields(rdef[0].ast.value) if rdef else None
         ctx.inst("message-id:agreement", sample={"receive": m1, "record": m2})
@@ -349,6 +358,9 @@ def run(ctx: Ctx):
     if rec_key is not None and not rk_ok:
         ctx.fail(cons + "#record", rec.loc(), f"_record_answer files the answered id under "
                  f"`{rec_key}`, which is not the origin recorded on reception")
+    # writer, readers and purge of the flat transaction tables agree on the key
+    from .common_node import transaction_table_keys
+    transaction_table_keys(ctx, "C17-R5", tables=("_origin_waiting_answer",))
     from . import c20
     ctx.include(c20.run, {"C20-R4"}, "C17-R4",
                 "the 5012 rejection actually carries its Result-Code: what _generate_answer "
